@@ -615,6 +615,17 @@ def check_cursor_pair(c, repo):
     c.need(n >= 6, 'expected >= 6 cursor writers')
 
 
+def stored_in(g, after, target, attr):
+    """the unpacking target IS self.<attr>, or a local that is stored into self.<attr> on every path after the unpacking"""
+    if norm(target) == 'self.' + attr:
+        return True
+    if not isinstance(target, ast.Name):
+        return False
+    st = [n for n in g.nodes if n.kind == 'stmt' and isinstance(n.ast, ast.Assign) and stmt_assigns_attr(n.ast, attr) is not None and is_name(n.ast.value, target.id)]
+    redef = [n for n in g.nodes if n.kind == 'stmt' and n is not after and target.id in assigned_names(n.ast)]
+    return bool(st) and not redef and g.must_pass(after, {g.exit}, set(st), skip_labels=('exc',))[0]
+
+
 def check_fsm_class(c, repo):
     f = repo.func('FSM:FSM.get_transition')
     g = f.cfg
@@ -658,21 +669,29 @@ def check_fsm_class(c, repo):
     c.check(len(asg) == 1 and norm(asg[0].value) == '(action, next_state)', sd, asg[0] if asg else sd.node, 'set_default_transition stores (action, next_state)', kind='ast', tag='builder:default')
     p = repo.func('FSM:FSM.process')
     gp = p.cfg
+    eqv = equivalents(p)
+    ACT, NXT, SYM = eqv('self.action'), eqv('self.next_state'), eqv('self.input_symbol')
     isym = [n for n in gp.nodes if n.kind == 'stmt' and stmt_assigns_attr(n.ast, 'input_symbol') is not None and is_name(n.ast.value, p.params[1])]
-    acts_ = [n for n, k in cfg_nodes_with_call(p, lambda k: norm(k.func) == 'self.action')]
+    acts_ = [n for n, k in cfg_nodes_with_call(p, lambda k: norm(k.func) in ACT)]
     c.check(len(isym) == 1 and bool(acts_) and gp.dominated_by(acts_[0], {isym[0]})[0], p, isym[0].ast if isym else None,
             'process() publishes the current symbol (fsm.input_symbol) before the action runs', kind='path', tag='symbol-before-action')
-    act = [n for n, k in cfg_nodes_with_call(p, lambda k: norm(k.func) == 'self.action')]
+    act = [n for n, k in cfg_nodes_with_call(p, lambda k: norm(k.func) in ACT)]
+    c.check(any(stmt_assigns_attr(n.ast, 'action') is not None or 'self.action' in norm(n.ast).split('=')[0] for n in gp.nodes if n.kind == 'stmt' and n.ast is not None and isinstance(n.ast, ast.Assign)),
+            p, None, 'the chosen action is published as fsm.action', kind='ast', tag='action-published')
     com = [n for n in gp.nodes if n.kind == 'stmt' and stmt_assigns_attr(n.ast, 'current_state') is not None]
     ok = len(act) == 1 and len(com) == 1 and gp.path(com[0], act[0], skip_labels=('exc',)) is None and norm(com[0].ast.value) == 'self.next_state' \
         and gp.dominated_by(gp.exit, {com[0]})[0]
     c.check(ok, p, com[0].ast if com else None, 'process(): the action runs before current_state is committed to next_state (actions read the old state), and the commit happens on every path',
             kind='path', tag='action-before-commit')
     gt = [n for n in gp.nodes if n.kind == 'stmt' and any(callee_last(k) == 'get_transition' for k in node_calls(n))]
-    ok = len(gt) == 1 and 'self.get_transition(self.input_symbol, self.current_state)' in norm(gt[0].ast) and norm(gt[0].ast.targets[0]) == '(self.action, self.next_state)'
+    ok = len(gt) == 1 and isinstance(gt[0].ast, ast.Assign) and isinstance(gt[0].ast.value, ast.Call) and len(gt[0].ast.value.args) == 2 \
+        and norm(gt[0].ast.value.args[0]) in SYM and norm(gt[0].ast.value.args[1]) == 'self.current_state' \
+        and isinstance(gt[0].ast.targets[0], ast.Tuple) and len(gt[0].ast.targets[0].elts) == 2 \
+        and stored_in(gp, gt[0], gt[0].ast.targets[0].elts[0], 'action') and stored_in(gp, gt[0], gt[0].ast.targets[0].elts[1], 'next_state')
     c.check(ok, p, gt[0].ast if gt else None, 'the transition is looked up for (this symbol, the current state)', kind='ast', tag='lookup-args')
-    tn = [t for t in gp.nodes if t.kind == 'test' and norm(t.ast) == 'self.action is not None']
-    c.check(len(tn) == 1 and bool(act) and act[0] in guard_region(gp, tn[0], 'true'), p, tn[0].ast if tn else None, 'a None action only changes state', kind='path', tag='none-action')
+    tn = [(t, r[3]) for t in gp.nodes if t.kind == 'test' and t.ast is not None for r in [relation(t.ast)]
+          if r and r[0] == 'is' and norm(r[1]) in ACT and is_const(r[2], None)]
+    c.check(len(tn) == 1 and bool(act) and act[0] in guard_region(gp, tn[0][0], other(tn[0][1])), p, tn[0][0].ast if tn else None, 'a None action only changes state', kind='path', tag='none-action')
 
 
 MUTANTS = [
